@@ -652,8 +652,9 @@ def run_config(cfg, tier, seed):
         res.sample({'edge_queue_verdicts': [c for c, t in VERDICTS], 'transports': ['smtp', 'http']})
         return res.as_dict()
     if cfg['t'] == 'slow-reader':
-        for pause in (5.0, 12.0, 15.0, 20.0, 23.0, 30.0):
-            for window in (64, 200, 1000):
+        pauses = (5.0, 12.0, 15.0, 20.0, 23.0, 30.0) if tier != 'thorough' else tuple(float(x) for x in range(1, 41))
+        for pause in pauses:
+            for window in ((64, 200, 1000) if tier != 'thorough' else (16, 64, 200, 330, 1000, 5000)):
                 res.interesting(('slow-reader', pause, window))
                 res.count('slow_reader_cases')
                 for sig, msg, rep in check_slow_reader(pause, window, res):
